@@ -102,7 +102,15 @@ func stringToDFA(value string) *auto.DFA {
 	d := auto.NewDFA(start, nil)
 
 	curr, next := start, start+1
+	escaped := false
 	for _, r := range value {
+		// A backslash makes the next character of a string literal stand for itself ("\"" is a double quote).
+		if r == '\\' && !escaped {
+			escaped = true
+			continue
+		}
+
+		escaped = false
 		d.Add(curr, auto.Symbol(r), next)
 		curr, next = next, next+1
 	}
